@@ -16,6 +16,14 @@ EXTRA = {
     "C14": "Note: tests/test_clf_pn532.py cannot be run on its own in this sandbox (it patches sys.platform); run the other tests/test_clf_*.py files and compare failing sets with the unchanged code.",
 }
 HINTS = {
+    10: ("For this round pick a code site and a kind of mistake that are DIFFERENT from the ones above - it is round 10 and the "
+         "list above is long, so read it carefully and then read the anchored files completely for code nobody touched.  Kinds of "
+         "mistakes nobody tried yet: an early `return`/`break` added for an 'impossible' case that is in fact legal; a lock or "
+         "condition variable released/notified one statement too early or too late; a value cached on the object that should be "
+         "recomputed after re-configuration; the interaction of two features that are each fine alone (aggregation with "
+         "fragmentation, a timeout with chaining, two services on one link, close() racing with recv()); counters that wrap "
+         "(modulo 16 / modulo 4) exactly at the wrap; the behaviour when the PEER is the one that initiates (connect, disconnect, "
+         "symmetry, fragment).  The change must be something a maintainer could plausibly commit."),
     9: ("For this round pick a code site and a kind of mistake that are DIFFERENT from the ones above - it is round 9.  Read the "
         "anchored files completely; prefer statements in the middle of long functions that none of the earlier ideas touched, "
         "conditions with three or more terms, arithmetic on sequence numbers / lengths / timeouts, and code that runs only for "
